@@ -51,13 +51,14 @@ func sigInfo(sig *types.Signature, withRecv bool) (pn []string, pt []types.Type,
 }
 
 func (w *World) calleeOf(f *ssa.Function) *calleeInfo {
+	inst := f
 	if f.Origin() != nil {
 		f = f.Origin()
 	}
 	ci := &calleeInfo{key: w.funcKey(f)}
 	ci.con = w.contracts[ci.key]
 	ci.pkg = strings.SplitN(ci.key, ".", 2)[0]
-	ci.pnames, ci.ptypes, ci.rnames, ci.rtypes = sigInfo(f.Signature, true)
+	ci.pnames, ci.ptypes, ci.rnames, ci.rtypes = sigInfo(inst.Signature, true)
 	if f.Blocks != nil && f.Pkg != nil && strings.HasPrefix(f.Pkg.Pkg.Path(), modPath) {
 		ci.isModule = true
 		ci.pnames = nil
@@ -446,6 +447,27 @@ func (g *FnGen) applyContract(ci *calleeInfo, args []Term, fvs map[string]SVal, 
 	}
 	callOrd := g.ordinal("call." + ci.short)
 	con := ci.con
+	// call-site assertions of the enclosing function's contract
+	for _, cl := range g.clauses("atcall") {
+		if cl.Key != ci.key {
+			continue
+		}
+		env := g.envAt(st, g.entry, nil)
+		nv := map[string]SVal{}
+		for k, v := range env.vars {
+			nv[k] = v
+		}
+		for i, a := range args {
+			var t types.Type
+			if i < len(ci.ptypes) {
+				t = ci.ptypes[i]
+			}
+			nv[fmt.Sprintf("arg%d", i)] = SVal{a, t}
+		}
+		env.vars = nv
+		goal := g.evalBool(env, cl)
+		g.oblige("atcall", cl.Label, cl.Props, reach, goal, cl.Src, pos)
+	}
 	if con == nil && !ci.isModule {
 		g.note("no contract for " + ci.key + ": result unconstrained, assumed to have no effect on the module's heap")
 	}
@@ -507,6 +529,20 @@ func (g *FnGen) applyContract(ci *calleeInfo, args []Term, fvs map[string]SVal, 
 			continue
 		}
 		old := g.hget(st, k)
+		if hasNarrow[k] && len(narrowed[k]) > 0 && len(narrowed[k]) <= 3 && strings.HasPrefix(srt, "(Array Int ") {
+			// footprint given as a short list of objects: the new array is the old one updated at exactly those
+			// objects (quantifier-free frame). Values at objects allocated by the callee are left as they were,
+			// i.e. unconstrained, unless the postcondition speaks about them.
+			env := &Env{g: g, vars: vars, st: before, old: before, pkg: ci.pkg}
+			es := srt[len("(Array Int ") : len(srt)-1]
+			cur := old.S
+			for _, r := range narrowed[k] {
+				nv := g.declare(g.fresh("hv:"+k), es)
+				cur = fmt.Sprintf("(store %s %s %s)", cur, g.eval(env, r).S, nv.S)
+			}
+			st.heap[k] = g.define(g.fresh("H:"+k), Term{cur, srt})
+			continue
+		}
 		nw := g.havoc(st, k)
 		if k == "alloc" {
 			g.emit(fmt.Sprintf("(assert (>= %s %s))", nw.S, old.S))
@@ -588,6 +624,11 @@ func (g *FnGen) applyContract(ci *calleeInfo, args []Term, fvs map[string]SVal, 
 			g.assume(reach, g.evalBool(env, cl))
 		}
 	}
+	if g.callRes == nil {
+		g.callRes, g.callReach = map[string][]Term{}, map[string]string{}
+	}
+	g.callRes[fmt.Sprintf("%s#%d", ci.key, callOrd)] = rs
+	g.callReach[fmt.Sprintf("%s#%d", ci.key, callOrd)] = reach
 	// global invariants survive calls (they are re-established by every function that could break them: see frame.global)
 	if len(mk) > 0 {
 		g.assumeGlobals(st, reach)
@@ -700,7 +741,7 @@ func (g *FnGen) appendOp(c *ssa.CallCommon, st *State, reach string, res ssa.Val
 	h := g.hget(st, key)
 	arr := g.declare(g.fresh("apparr"), fmt.Sprintf("(Array Int %s)", es))
 	sel := func(x Term, i string) string {
-		return fmt.Sprintf("(select (select %s (arr_%s %s)) (+ (off_%s %s) %s))", h.S, ss, x.S, ss, x.S, i)
+		return w.elemTerm(ss, es, h.S, x.S, i)
 	}
 	ls, lt := fmt.Sprintf("(len_%s %s)", ss, s.S), fmt.Sprintf("(len_%s %s)", ss, t.S)
 	g.emit(fmt.Sprintf("(assert (forall ((i Int)) (! (=> (and (<= 0 i) (< i %s)) (= (select %s i) %s)) :pattern ((select %s i)))))", ls, arr.S, sel(s, "i"), arr.S))
@@ -716,13 +757,21 @@ func (g *FnGen) appendOp(c *ssa.CallCommon, st *State, reach string, res ssa.Val
 // ---------------------------------------------------------------- intrinsics
 
 var intrinsics = map[string]func(g *FnGen, a []Term) Term{
-	"strings.HasPrefix": func(g *FnGen, a []Term) Term { return Term{fmt.Sprintf("(str.prefixof %s %s)", a[1].S, a[0].S), "Bool"} },
-	"strings.HasSuffix": func(g *FnGen, a []Term) Term { return Term{fmt.Sprintf("(str.suffixof %s %s)", a[1].S, a[0].S), "Bool"} },
-	"strings.Index":     func(g *FnGen, a []Term) Term { return Term{fmt.Sprintf("(str.indexof %s %s 0)", a[0].S, a[1].S), "Int"} },
+	"strings.HasPrefix": func(g *FnGen, a []Term) Term {
+		return Term{fmt.Sprintf("(str.prefixof %s %s)", a[1].S, a[0].S), "Bool"}
+	},
+	"strings.HasSuffix": func(g *FnGen, a []Term) Term {
+		return Term{fmt.Sprintf("(str.suffixof %s %s)", a[1].S, a[0].S), "Bool"}
+	},
+	"strings.Index": func(g *FnGen, a []Term) Term {
+		return Term{fmt.Sprintf("(str.indexof %s %s 0)", a[0].S, a[1].S), "Int"}
+	},
 	"strings.IndexByte": func(g *FnGen, a []Term) Term {
 		return Term{fmt.Sprintf("(str.indexof %s (str.from_code %s) 0)", a[0].S, a[1].S), "Int"}
 	},
-	"strings.Contains": func(g *FnGen, a []Term) Term { return Term{fmt.Sprintf("(str.contains %s %s)", a[0].S, a[1].S), "Bool"} },
+	"strings.Contains": func(g *FnGen, a []Term) Term {
+		return Term{fmt.Sprintf("(str.contains %s %s)", a[0].S, a[1].S), "Bool"}
+	},
 	"strings.TrimPrefix": func(g *FnGen, a []Term) Term {
 		return Term{fmt.Sprintf("(ite (str.prefixof %s %s) (str.substr %s (str.len %s) (- (str.len %s) (str.len %s))) %s)", a[1].S, a[0].S, a[0].S, a[1].S, a[0].S, a[1].S, a[0].S), "String"}
 	},
